@@ -1,4 +1,5 @@
-import TakVerif.Proofs.TEIClient
+import TakVerif.Proofs.TEIClientCompose
+import TakVerif.Props.C17
 
 /-! # C17, observed at `tei.Player.TEIGetMove` — the client side of TEI
 
@@ -9,7 +10,7 @@ Theorems about `Tak.TEIClient` (the model of `tei/client.go`, `tei/time.go` and 
 set_option linter.unusedVariables false
 set_option linter.unusedSimpArgs false
 namespace C17
-open Tak Tak.TEI Tak.TEIClient Spec.TEIClient Proofs.TEIClient Go
+open Tak Tak.TEI Tak.TEIClient Spec.TEIClient Spec.TEI Proofs.TEIClient Proofs.TEI Go Notation
 
 /-! ## `formatTime` -/
 
@@ -170,5 +171,128 @@ theorem selfplay_tooShort_iff (inc : Int) (hinc : 0 ≤ inc) (durs : List Int) (
 /-- a game: 5 ms each, 2 ms increment; White uses 1 ms, Black 3.5 ms, White 1 ms, Black 3 ms (flagged: 0.5 ms left) -/
 example : (clockTrace 2000000 true 5000000 5000000 [1000000, 3500000, 1000000, 3000000, 7]).map (fun tc => (tc.white, tc.black))
     = [(5000000, 5000000), (6000000, 5000000), (6000000, 3500000), (7000000, 3500000)] := by decide
+
+/-! ## the position the engine analyses -/
+
+/-- **The engine ends up with the position the caller handed to `TEIGetMove`.**  For every well-formed
+position `p` with the default piece counts of its size (`Notation.tpsHyp`, the hypothesis of
+`C10.tps_roundtrip`; `AnalyzeTotal` is discharged by `Roads.analyze_ne_none`) and every engine state configured for
+`p`'s size (whatever searcher it has cached, whatever position it held, at any point `k` of its command
+stream): `FormatTPS p` succeeds, and the engine fed the client's line `position tps <FormatTPS p>` —
+tokenised as `Run` does — carries on without output holding a position `p'` that is `Equal` to `p`, has the
+same `Hash()`, the same four reserve counters, the same side to move and the same ply.
+(TPS does not carry piece counts or `BlackWinsTies`: for other configurations the engine analyses a
+different game; the correspondence reports those as `same=0`.) -/
+theorem client_position_roundtrip (basis : Array W) (search : Nat → Pos → Option Int → SearchRes) (p : Pos)
+    (h : tpsHyp basis p = true) (k : Nat) (st : Engine) (hsize : st.size = p.cfg.size) :
+    ∃ tps p', TPS.formatTPS p = .ok tps ∧ TPS.parseTPS basis tps = .ok p' ∧
+      step (realEnv basis search) k st (fields ("position tps " ++ str tps).toList)
+        = .cont { out := [], st := { st with pos := some p' } } ∧
+      p'.equal p = true ∧ p'.hashOf = p.hashOf ∧
+      p'.whiteStones = p.whiteStones ∧ p'.whiteCaps = p.whiteCaps ∧
+      p'.blackStones = p.blackStones ∧ p'.blackCaps = p.blackCaps ∧
+      p'.toMove = p.toMove ∧ p'.move = p.move :=
+  position_step basis search p h k st hsize
+
+/-! ## one `TEIGetMove` against the engine -/
+
+/-- what the client holds between calls in a running game of `size`: the engine process is alive, every line
+it wrote has been read, the player belongs to the current game, the engine is configured for `size` and a
+cached searcher (if any) was built for that size — the state after `NewGame(size)` and after every
+completed `TEIGetMove` (`connAfter`). -/
+structure Ready (c : Conn EngSt) (pl : Player) (size : Nat) : Prop where
+  alive : c.alive = true
+  unread : c.unread = []
+  game : pl.gameid = c.gameid
+  size : c.eng.st.size = size
+  mm : ∀ s, c.eng.st.mm = some s → s = c.eng.st.size
+
+/-- **`TEIGetMove` returns exactly the head of the searcher's principal variation** for the position the
+engine was told, after writing exactly two lines.  For a ready connection, a well-formed default-count
+position `p` of the game's size and durations that can be expressed in milliseconds: let `p'` be the position
+the engine rebuilds from the client's TPS (`client_position_roundtrip`: `Equal` to `p`, same hash, reserves,
+side, ply) and `r` the searcher's answer for `p'` under the limit `goBudget p' (goArgs rem tc)`.
+* If `r.pv = m :: _` and `m` is a canonical move value, the call returns `ok m`; the client wrote
+  `position tps <FormatTPS p>` and `go …` (`goWords`) and nothing else; afterwards the connection is ready
+  again (nothing unread, engine alive, searcher cached for the size) and the deadline the engine installed
+  is `goBudget p' (goArgs rem tc)`.
+* If `r.pv = []` (what the searcher answers on a finished game, or when its limit cut it short before
+  depth 1) the engine writes nothing and keeps waiting for commands: the call **never returns** (`.hang`).
+  `selfplay` asks for a move only while `GameOver` is false; a finished opening position would block its
+  worker for good. -/
+theorem client_returns_pv_head (basis : Array W) (search : Nat → Pos → Option Int → SearchRes)
+    (c : Conn EngSt) (pl : Player) (p : Pos) (rem : Option Int) (tc : Option TimeControl)
+    (hp : tpsHyp basis p = true) (hrange : InRange rem (tc.getD {})) (hlong : ¬ TooShort rem (tc.getD {}))
+    (hready : Ready c pl p.cfg.size) :
+    ∃ tps p', TPS.formatTPS p = .ok tps ∧ TPS.parseTPS basis tps = .ok p' ∧
+      (∀ m rest, (search (c.eng.k + 1) p' (goBudget p' (goArgs rem (tc.getD {})))).pv = m :: rest →
+          LegalShape p'.cfg.size m →
+          teiGetMove (serverPeer (realEnv basis search)) c pl p rem tc
+            = (connAfter c p' (goBudget p' (goArgs rem (tc.getD {})))
+                ["position tps " ++ str tps, goLine (goWords rem (tc.getD {}))], .ok m)) ∧
+      ((search (c.eng.k + 1) p' (goBudget p' (goArgs rem (tc.getD {})))).pv = [] →
+          teiGetMove (serverPeer (realEnv basis search)) c pl p rem tc
+            = (connAfter c p' (goBudget p' (goArgs rem (tc.getD {})))
+                ["position tps " ++ str tps, goLine (goWords rem (tc.getD {}))],
+               .error (.hang "sendCommand: the engine writes nothing more and waits for input"))) := by
+  obtain ⟨tps, p', h1, h2, _, h4, h5⟩ :=
+    getMove_live basis search c pl p rem tc hp hrange hlong hready.alive hready.unread hready.game hready.size hready.mm
+  exact ⟨tps, p', h1, h2, h4, h5⟩
+
+/-- **On a live position the client returns a move that is legal there.**  Composition of the above with
+the searcher contract `SearcherCanonical` (C04 + C03: on a live position the PV is non-empty and starts with a
+move `Position.Move` accepts that is a canonical move value): if the position the engine was told (`p'`, which
+is `p` in the sense of `client_position_roundtrip`) is not over, `TEIGetMove` returns `ok m` with `m` accepted
+by `Position.Move` in `p'`.  The move travels as its short PTN spelling and is read back by `ParseMove`
+(`C11.ptn_short_rt`).  Legality is stated in `p'`: that `Equal` positions with equal reserves and ply accept the
+same moves is C01/C08 (`move_ok_iff` over `Spec.abs`), not repeated here. -/
+theorem client_server_bestmove_legal (basis : Array W) (search : Nat → Pos → Option Int → SearchRes)
+    (hS : SearcherCanonical (realEnv basis search))
+    (c : Conn EngSt) (pl : Player) (p : Pos) (rem : Option Int) (tc : Option TimeControl)
+    (hp : tpsHyp basis p = true) (hrange : InRange rem (tc.getD {})) (hlong : ¬ TooShort rem (tc.getD {}))
+    (hready : Ready c pl p.cfg.size) :
+    ∃ tps p', TPS.formatTPS p = .ok tps ∧ TPS.parseTPS basis tps = .ok p' ∧
+      (p'.equal p = true ∧ p'.hashOf = p.hashOf ∧ p'.toMove = p.toMove ∧ p'.move = p.move) ∧
+      (p'.gameOver.1 = false →
+        ∃ m c', teiGetMove (serverPeer (realEnv basis search)) c pl p rem tc = (c', .ok m) ∧
+          (p'.apply basis m).isOk = true ∧ Ready c' pl p.cfg.size ∧
+          c'.wrote = c.wrote ++ ["position tps " ++ str tps, goLine (goWords rem (tc.getD {}))]) := by
+  obtain ⟨tps, p', h1, h2, h3, h4, _⟩ :=
+    getMove_live basis search c pl p rem tc hp hrange hlong hready.alive hready.unread hready.game hready.size hready.mm
+  refine ⟨tps, p', h1, h2, ⟨h3.1, h3.2.1, h3.2.2.2.2.2.2.1, h3.2.2.2.2.2.2.2⟩, ?_⟩
+  intro hlive
+  obtain ⟨m, rest, hpv, hlegal, hshape⟩ := hS (c.eng.k + 1) p' (goBudget p' (goArgs rem (tc.getD {}))) hlive
+  refine ⟨m, _, h4 m rest hpv hshape, hlegal, ?_, rfl⟩
+  exact ⟨rfl, rfl, hready.game, hready.size, fun s hs => by simpa [connAfter] using hs.symm⟩
+
+/-- `NewGame(size)` on a fresh connection makes it ready -/
+theorem newGame_ready (env : Env) (size : Nat) (h3 : 3 ≤ size) (h8 : size ≤ 8) :
+    ∃ c pl, newGame (serverPeer env) { eng := {} } size = (c, .ok pl) ∧ Ready c pl size ∧
+      c.wrote = ["teinewgame " ++ str (itoa size)] := by
+  have hs : size = 3 ∨ size = 4 ∨ size = 5 ∨ size = 6 ∨ size = 7 ∨ size = 8 := by omega
+  rcases hs with rfl | rfl | rfl | rfl | rfl | rfl <;>
+    exact ⟨_, _, rfl, ⟨rfl, rfl, rfl, rfl, fun s hs => by cases hs⟩, rfl⟩
+
+/-! ### a concrete session (the hypotheses are satisfiable) -/
+
+def exBasis : Array W := Array.replicate 64 0#64
+/-- a searcher that always answers b2 -/
+def exSearch : Nat → Pos → Option Int → SearchRes :=
+  fun _ _ _ => { depth := 1, elapsedMs := 0, nodes := 1, val := 0, pv := [⟨1, 1, Facts.mtPlaceFlat, 0#32⟩] }
+def exPeer := serverPeer (realEnv exBasis exSearch)
+def exConn : Conn EngSt := (newGame exPeer { eng := {} } 3).1
+def exTC : TimeControl := { white := 60000700000, black := 1500000, winc := 2000000 }
+
+example : tpsHyp exBasis (TPS.startPos 3 0) = true := by decide +kernel
+example : InRange (some 1500000000) exTC ∧ ¬ TooShort (some 1500000000) exTC := by
+  refine ⟨⟨?_, ?_, ?_, ?_, ?_⟩, ?_⟩ <;> first | decide | (intro r hr; cases hr; decide)
+example : LegalShape 3 ⟨1, 1, Facts.mtPlaceFlat, 0#32⟩ := by decide
+/-- the whole call on the model: lines written, move returned, deadline installed by the engine (White to
+move, 60.0007 s on the clock, 2 ms increment: 60 s / 5 + 2 ms, cut down to the movetime of 1.5 s) -/
+example :
+    let r := teiGetMove exPeer exConn ⟨1⟩ (TPS.startPos 3 0) (some 1500000000) (some exTC)
+    r.1.wrote = ["teinewgame 3", "position tps x3/x3/x3 1 1", "go movetime 1500 wtime 60000 btime 1 winc 2"] ∧
+    toOpt r.2 = some ⟨1, 1, Facts.mtPlaceFlat, 0#32⟩ ∧ r.1.eng.deadline = some 1500000000 ∧
+    r.1.unread = [] ∧ r.1.alive = true := by decide +kernel
 
 end C17
